@@ -1,4 +1,6 @@
 import BearVerif.Props.C01
+import BearVerif.Lemmas.BearTable
+import BearVerif.Extracted.BearTables
 /-!
   C10 — checking never modifies or consumes the object being checked.
 
@@ -39,5 +41,69 @@ theorem C10_noncollection_shallow (o : Nat) (h : Hint) (x : Obj) (hnc : W.sub x.
     generate an `isinstance` test and nothing else -/
 theorem C10_shallow_is_isinstance (c : Nat) (p : Pith) (k : Nat) :
     gen conf (.shallow c) p k = .isinst (p.raw k) [c] := by simp [gen]
+
+/-! ### the real sign tables (re-extracted from /repo and the running interpreter on every run) -/
+
+/-- the extracted class table -/
+def stdTable : Table :=
+  { rows := Extracted.subRows, sized := Extracted.sizedBits, indexable := Extracted.indexableBits,
+    reiter := Extracted.reiterBits, mapping := Extracted.mappingBits }
+
+/-- the standard world satisfies the ABC facts every Bear-core theorem assumes (`W.Wf`) -/
+theorem C10_table_world_wf (pred : Nat → Obj → Bool) : (stdTable.world pred).Wf :=
+  stdTable.wf_of_check pred (by decide +kernel) (by decide +kernel)
+
+/-- every origin of a SEQUENCE-logic sign (beartype's HINT_SIGNS_SEQUENCE) is indexable and sized -/
+theorem C10_table_seq_caps (pred : Nat → Obj → Bool) :
+    ∀ o ∈ Extracted.seqOrigins, CapSeq (stdTable.world pred) o := by
+  intro o ho c hc
+  have hall : Extracted.seqOrigins.all (fun o => decide (o < stdTable.rows.length) &&
+      stdTable.checkCap o (fun c => bitAt stdTable.indexable c && bitAt stdTable.sized c)) = true := by decide +kernel
+  have := List.all_eq_true.mp hall o ho
+  simp only [Bool.and_eq_true, decide_eq_true_eq] at this
+  have := stdTable.cap_of_check o _ this.1 this.2 c hc
+  simpa [Table.world] using this
+
+/-- every origin of a REITERABLE-logic sign (HINT_SIGNS_REITERABLE) is a sized, safely
+    re-iterable Collection — so `next(iter(x))` never meets a one-shot iterator. Moving
+    Iterator/Generator/… into that sign set breaks this theorem. -/
+theorem C10_table_reit_caps (pred : Nat → Obj → Bool) :
+    ∀ o ∈ Extracted.reitOrigins, CapReit (stdTable.world pred) o ∧
+      ∀ c, (stdTable.world pred).sub c o = true → (stdTable.world pred).sub c cCollection = true := by
+  intro o ho
+  have hall : Extracted.reitOrigins.all (fun o => decide (o < stdTable.rows.length) &&
+      stdTable.checkCap o (fun c => bitAt stdTable.sized c && bitAt stdTable.reiter c) &&
+      stdTable.checkCap o (fun c => stdTable.sub c cCollection)) = true := by decide +kernel
+  have := List.all_eq_true.mp hall o ho
+  simp only [Bool.and_eq_true, decide_eq_true_eq] at this
+  obtain ⟨⟨hlt, h1⟩, h2⟩ := this
+  constructor
+  · intro c hc
+    have := stdTable.cap_of_check o _ hlt h1 c hc
+    simpa [Table.world] using this
+  · intro c hc
+    exact stdTable.cap_of_check o _ hlt h2 c hc
+
+/-- sequence origins are Collections too (what the explanation path relies on: `Hint.ErrWf`) -/
+theorem C10_table_seq_collections (pred : Nat → Obj → Bool) :
+    ∀ o ∈ Extracted.seqOrigins, ∀ c, (stdTable.world pred).sub c o = true → (stdTable.world pred).sub c cCollection = true := by
+  intro o ho c hc
+  have hall : Extracted.seqOrigins.all (fun o => decide (o < stdTable.rows.length) &&
+      stdTable.checkCap o (fun c => stdTable.sub c cCollection)) = true := by decide +kernel
+  have := List.all_eq_true.mp hall o ho
+  simp only [Bool.and_eq_true, decide_eq_true_eq] at this
+  exact stdTable.cap_of_check o _ this.1 this.2 c hc
+
+/-- every MAPPING origin (HINT_SIGNS_MAPPING) is a sized, re-iterable mapping -/
+theorem C10_table_map_caps (pred : Nat → Obj → Bool) :
+    ∀ o ∈ Extracted.mapOrigins, CapMap (stdTable.world pred) o := by
+  intro o ho c hc
+  have hall : Extracted.mapOrigins.all (fun o => decide (o < stdTable.rows.length) &&
+      stdTable.checkCap o (fun c => bitAt stdTable.sized c && (bitAt stdTable.reiter c && bitAt stdTable.mapping c))) = true := by
+    decide +kernel
+  have := List.all_eq_true.mp hall o ho
+  simp only [Bool.and_eq_true, decide_eq_true_eq] at this
+  have := stdTable.cap_of_check o _ this.1 this.2 c hc
+  simpa [Table.world] using this
 
 end BearVerif.Bear
